@@ -128,6 +128,9 @@ type world struct {
 	// leak bookkeeping for classification: hash id -> description of how it became an orphan
 	orphanSeen map[int]string
 	gapped     map[int]bool // senders whose pending list already has a reported gap
+	gapAfter   map[int]bool // senders with a virtual-nonce mismatch inherited from a reported gap
+	overAQ     map[int]bool // senders whose queue overshoot (requeue by removeTx) is already reported
+	overGQ     bool
 }
 
 var chainID = params.TestChainConfig.ChainId
@@ -365,6 +368,35 @@ func (w *world) askOp(kind, args, want string, post snap, relevant map[int]bool)
 		w.c.Count("oracle-search/filter-order")
 		return ans, true
 	}
+	// accounts owning the implementation's stale heap entries were processed after the last reheap: try them last
+	if post.stale != "" {
+		last := map[int]bool{}
+		for _, s := range strings.Split(post.stale, ",") {
+			var id int
+			fmt.Sscanf(s, "%d", &id)
+			if id >= 1 && id <= len(w.byID) {
+				last[w.byID[id-1].from] = true
+			}
+		}
+		var front, back []int
+		for _, a := range base {
+			if last[a] {
+				back = append(back, a)
+			} else {
+				front = append(front, a)
+			}
+		}
+		// every rotation of the remaining relevant accounts in front of them
+		for rot := 0; rot <= len(front); rot++ {
+			p := append(append(append([]int{}, front[rot:]...), front[:rot]...), back...)
+			for _, rank := range []string{"-", rank1, rank2} {
+				if ans, ok := try(p, base, base, rank); ok {
+					w.c.Count("oracle-search/stale-owner-last")
+					return ans, true
+				}
+			}
+		}
+	}
 	// sorted ascending copy of base positions: enumerate permutations of the accounts
 	if nrel > n {
 		nrel = n
@@ -500,10 +532,22 @@ func (w *world) directOracle(before, after view, s snap, opDesc string) {
 			}
 		}
 		if contiguous {
+			wasGapped := w.gapped[a] || w.gapAfter[a]
 			w.gapped[a] = false
 			// virtual nonce
 			if got := w.pool.State().GetNonce(w.addrs[a]); got != want+uint64(len(l)) {
-				w.c.Violate("pending-nonce-mismatch/"+w.cfgName, fmt.Sprintf("State().GetNonce(%d)=%d, want %d", a, got, want+uint64(len(l))), w.replay(opDesc))
+				if wasGapped {
+					// aftermath of the reported hole: it was filled by a later submission, promoteTx set the virtual
+					// nonce to (filled nonce)+1 although later nonces are pending
+					if !w.gapAfter[a] {
+						w.c.Violate("reset-reinject-leaves-gap-in-pending", fmt.Sprintf("aftermath: the hole in sender %d's pending list was filled; State().GetNonce=%d but the pending run ends at %d (after %s)", a, got, want+uint64(len(l)), opDesc), w.replay(opDesc))
+					}
+					w.gapAfter[a] = true
+				} else {
+					w.c.Violate("pending-nonce-mismatch/"+w.cfgName, fmt.Sprintf("State().GetNonce(%d)=%d, want %d", a, got, want+uint64(len(l))), w.replay(opDesc))
+				}
+			} else {
+				w.gapAfter[a] = false
 			}
 		}
 	}
@@ -556,20 +600,80 @@ func (w *world) directOracle(before, after view, s snap, opDesc string) {
 			overA = true
 		}
 	}
+	// The limits are enforced by promoteExecutables.  removeTx (SetGasPrice, eviction of the cheapest when the pool is
+	// full) re-queues the successors of a removed pending transaction without any cap, and a replacing add is not
+	// followed by promoteExecutables: recognised mechanism, stable signature.  An overshoot that was reported stays
+	// until an operation that must enforce the limit (reset: everything; accepted non-replacing add: GlobalQueue and
+	// the submitter's AccountQueue).
+	isReset := strings.HasPrefix(opDesc, "reset ")
+	submitter, enforcing := -1, isReset
+	if f := strings.Fields(opDesc); len(f) == 2 && (f[0] == "addr" || f[0] == "addl") {
+		var id int
+		fmt.Sscanf(f[1], "%d:", &id)
+		t := w.byID[id-1]
+		replaced := false
+		for _, o := range append(append([]*mtx{}, before.pending[t.from]...), before.queued[t.from]...) {
+			if o.nonce == t.nonce {
+				replaced = true
+			}
+		}
+		if after.listed[id] && !before.listed[id] && !replaced {
+			submitter, enforcing = t.from, true
+		}
+	}
+	demoted := func(a int) bool { // a transaction of a moved from pending to queue in this operation
+		for _, t := range after.queued[a] {
+			for _, o := range before.pending[a] {
+				if o.id == t.id {
+					return true
+				}
+			}
+		}
+		return false
+	}
+	anyDemoted := false
+	for a := range after.queued {
+		if demoted(a) {
+			anyDemoted = true
+		}
+	}
 	for a, l := range after.queued {
 		nq += len(l)
 		if !after.locals[a] {
 			nonLocalQ += len(l)
 			if uint64(len(l)) > w.cfg.AccountQueue {
-				w.c.Violate("account-queue-exceeded/"+w.cfgName, fmt.Sprintf("non-local sender %d has %d queued > AccountQueue %d", a, len(l), w.cfg.AccountQueue), w.replay(opDesc))
+				switch {
+				case !isReset && a != submitter && demoted(a):
+					w.overAQ[a] = true
+					w.c.Violate("removetx-requeue-exceeds-queue-limits", fmt.Sprintf("non-local sender %d has %d queued > AccountQueue %d after %s: removeTx re-queued its pending transactions and no promoteExecutables followed", a, len(l), w.cfg.AccountQueue, opDesc), w.replay(opDesc))
+				case w.overAQ[a] && !isReset && a != submitter: // still the reported overshoot
+				default:
+					w.c.Violate("account-queue-exceeded/"+w.cfgName, fmt.Sprintf("non-local sender %d has %d queued > AccountQueue %d", a, len(l), w.cfg.AccountQueue), w.replay(opDesc))
+				}
+			} else {
+				w.overAQ[a] = false
 			}
+		}
+	}
+	for a := range w.overAQ {
+		if len(after.queued[a]) == 0 {
+			w.overAQ[a] = false
 		}
 	}
 	if uint64(np) > w.cfg.GlobalSlots && overA {
 		w.c.Violate("global-slots-exceeded/"+w.cfgName, fmt.Sprintf("%d pending > GlobalSlots %d while a non-local sender holds more than AccountSlots", np, w.cfg.GlobalSlots), w.replay(opDesc))
 	}
 	if uint64(nq) > w.cfg.GlobalQueue && nonLocalQ > 0 {
-		w.c.Violate("global-queue-exceeded/"+w.cfgName, fmt.Sprintf("%d queued > GlobalQueue %d with %d of them non-local", nq, w.cfg.GlobalQueue, nonLocalQ), w.replay(opDesc))
+		switch {
+		case !enforcing && anyDemoted:
+			w.overGQ = true
+			w.c.Violate("removetx-requeue-exceeds-queue-limits", fmt.Sprintf("%d queued > GlobalQueue %d with %d of them non-local after %s: removeTx re-queued pending transactions and no promoteExecutables followed", nq, w.cfg.GlobalQueue, nonLocalQ, opDesc), w.replay(opDesc))
+		case w.overGQ && !enforcing: // still the reported overshoot
+		default:
+			w.c.Violate("global-queue-exceeded/"+w.cfgName, fmt.Sprintf("%d queued > GlobalQueue %d with %d of them non-local", nq, w.cfg.GlobalQueue, nonLocalQ), w.replay(opDesc))
+		}
+	} else {
+		w.overGQ = false
 	}
 }
 
@@ -751,6 +855,9 @@ func (w *world) runHistory(pc poolCfg) {
 	w.history = nil
 	w.orphanSeen = map[int]string{}
 	w.gapped = map[int]bool{}
+	w.overAQ = map[int]bool{}
+	w.gapAfter = map[int]bool{}
+	w.overGQ = false
 	w.txs = map[common.Hash]*mtx{}
 	w.byID = nil
 	w.prices = map[string]bool{}
@@ -1136,6 +1243,9 @@ func (w *world) runConcurrent(pc poolCfg) {
 	w.history = []string{"concurrent history (8 goroutines); only the end state is checked against PoolOK"}
 	w.orphanSeen = map[int]string{}
 	w.gapped = map[int]bool{}
+	w.overAQ = map[int]bool{}
+	w.gapAfter = map[int]bool{}
+	w.overGQ = false
 	w.txs = map[common.Hash]*mtx{}
 	w.byID = nil
 	w.prices = map[string]bool{}
